@@ -81,8 +81,8 @@ _TEMPLATE = {"turn": 1, "agent": "Ambrose", "version_etag": "2", "applied": 0, "
              "store": {"g0": {"nodes": [{"id": "n0", "label": "river", "attrs": {}}], "edges": [{"id": "e0", "src": "n0", "dst": "n0", "weight": 0.5, "rel": "supports", "attrs": {}}], "meta": {}}},
              "graph_schema_version": "v1.1",
              "gel": {"nodes": {"ep00": {"id": "ep00"}, "ep01": {"id": "ep01"}, "ep02": {"id": "ep02"}},
-                     "edges": {"ep01\u2192ep02": {"src": "ep01", "dst": "ep02", "rel": "coact", "weight": 0.225432, "updated_at": None, "attrs": {"last_seen_turn": 0}, "id": "ep01\u2192ep02"},
-                               "ep00\u2192ep02": {"src": "ep00", "dst": "ep02", "rel": "coact", "weight": 0.650648, "updated_at": None, "attrs": {"last_seen_turn": 0}, "id": "ep00\u2192ep02"}},
+                     "edges": {"ep01\u2192ep02": {"src": "ep01", "dst": "ep02", "rel": "coact", "weight": 0.225432, "updated_at": None, "attrs": {"last_seen_turn": 0, "coact": 2}, "id": "ep01\u2192ep02"},
+                               "ep00\u2192ep02": {"src": "ep00", "dst": "ep02", "rel": "coact", "weight": 0.650648, "updated_at": None, "attrs": {"last_seen_turn": 0, "coact": 1}, "id": "ep00\u2192ep02"}},
                      "meta": {"merges": [], "splits": [], "promotions": [], "concept_nodes_count": 0, "edges_count": 2, "schema": "v1.1"}},
              "graph": {"nodes_count": 3, "edges_count": 2, "meta": {"last_update": None}}}
 _SHAPES: List[Any] = [None, 5, -1, 0.5, "x", "", [], {}, [1], ["a", "b"], {"a": 1}, True, 1e308, "NaN", [[]], [{}], {"id": 7}, "9" * 50, -0.0, 2**70]
@@ -106,7 +106,8 @@ def _mutated_snapshot(r) -> bytes:
         ps = paths(snap)
         # the graph-evolution section is what later turns keep reading: bias towards it
         gel_ps = [p for p in ps if p and p[0] == "gel"]
-        p = r.choice(gel_ps if gel_ps and r.chance(0.6) else ps)
+        deep_ps = [p for p in gel_ps if len(p) >= 5]   # fields INSIDE an edge record (attrs.coact, attrs.last_seen_turn, ...)
+        p = r.choice(deep_ps if deep_ps and r.chance(0.3) else (gel_ps if gel_ps and r.chance(0.6) else ps))
         cur = snap
         for k in p[:-1]:
             cur = cur[k]
